@@ -31,7 +31,7 @@ def special_array(kind, j):
     non-orthonormal matrices, non-unit quaternions.  None when the kind has no special values."""
     j = int(j) % 6
     j0 = j
-    e = 1e-10 if j == 4 else (3e-13 if j == 5 else 1e-7)      # inside / outside validity tolerances
+    e = 1e-10 if j == 4 else (8e-15 if j == 5 else 1e-7)      # inside / outside validity tolerances
     if j >= 4 and kind not in ('R2', 'R3', 'T2', 'T3', 'q'):
         j -= 3
     if j >= 4 and kind != 'q':
@@ -93,7 +93,7 @@ def special_array(kind, j):
 
 def gen_array(kind, k):
     k = int(k)
-    if k >= 8:
+    if k >= 8 and not (kind in ('p2', 'p3', 'hp2', 'hp3') and k == 13):
         sp = special_array(kind, k - 8)
         if sp is not None:
             return sp
@@ -144,6 +144,13 @@ def gen_array(kind, k):
         S[:3, :3] = _skew3(gen_array('sv3', k) * 3.0)
         S[:3, 3] = gen_array('v3', k)
         return S
+    if kind in ('p2', 'p3', 'hp2', 'hp3') and k == 13:
+        # a wide point set: "bulk" code paths hide behind size thresholds
+        rows = {'p2': 2, 'p3': 3, 'hp2': 3, 'hp3': 4}[kind]
+        a = np.fromfunction(lambda i, j: 0.001 * j + 0.5 * i + 0.25, (rows, 1100))
+        if kind.startswith('hp'):
+            a[-1, :] = 1.0 + 0.001 * np.arange(1100)
+        return a
     if kind == 'p2':
         n = 1 + (k % 4)
         return np.array([[0.5 * i + 0.1 * k, -1.0 * i + 0.2 * k + 1] for i in range(n)]).T.copy()
